@@ -108,4 +108,23 @@ mod verif_kani_supportedcone {
         let (merged, _) = check_on([any_cone(), any_cone()]);
         kani::cover!(merged);
     }
+    // length 3 and 4: a concrete prefix (control flow of the first cones concrete) followed by one cone of any kind and dimension
+    #[kani::proof]
+    #[kani::unwind(4)]
+    fn new_collapsed_matches_spec_len3_run2_then_any() { check_on([NonnegativeConeT(2), SecondOrderConeT(1), any_cone()]); }
+    #[kani::proof]
+    #[kani::unwind(4)]
+    fn new_collapsed_matches_spec_len3_nn_empty_then_any() { check_on([NonnegativeConeT(1), ZeroConeT(0), any_cone()]); }
+    #[kani::proof]
+    #[kani::unwind(4)]
+    fn new_collapsed_matches_spec_len3_soc_soc1_then_any() { check_on([SecondOrderConeT(3), SecondOrderConeT(1), any_cone()]); }
+    #[kani::proof]
+    #[kani::unwind(5)]
+    fn new_collapsed_matches_spec_len4_nn_empty_soc1_then_any() { check_on([NonnegativeConeT(1), ZeroConeT(0), SecondOrderConeT(1), any_cone()]); }
+    #[kani::proof]
+    #[kani::unwind(5)]
+    fn new_collapsed_matches_spec_len4_zero_soc1_empty_then_any() { check_on([ZeroConeT(2), SecondOrderConeT(1), NonnegativeConeT(0), any_cone()]); }
+    #[kani::proof]
+    #[kani::unwind(4)]
+    fn new_collapsed_dev_any_then_run2() { check_on([any_cone(), NonnegativeConeT(2), SecondOrderConeT(1)]); }
 }
